@@ -77,11 +77,33 @@ def judge(cfg, keys, r):
                 # EditReadOnlyBuffer (the fix-up is skipped on that path)
                 fam = "readonly-swallowed-edit" if a["ro"] else h.split(".")[-1]
                 if tok in ("<yield>", "<release>"):
-                    fam = "async-completion-landed-in-navigation-mode"
+                    # C05-F13 only when the evidence says so: a completer is configured (its answer always arrives as a
+                    # background task, gated or not), Escape
+                    # was pressed earlier, Vi already was in navigation mode before this step, and the step
+                    # inserted one of the completer's words into the focused buffer
+                    words = ("alpha", "alpine", "beta", "界面")
+                    inserted = b["text"] != a["text"] and any(w in a["text"] and w not in b["text"] for w in words)
+                    if (cfg.get("completer") and "<escape>" in keys[:j] and b["mode"] == "vi-navigation"
+                            and b["buf"] == a["buf"] and inserted):
+                        fam = "async-completion-landed-in-navigation-mode"
+                    else:
+                        fam = "after-event-loop-step"
                 out.append(({"clause": tag, "family": fam}, cl + " (after %s)" % h.split(".")[-1], j))
             else:
                 out.append(({"clause": tag, "editing": a["editing"]}, cl, j))
-        if tok == "<escape>" and not exc:
+        if "escape_calls" in a:
+            # every dispatch of a key sequence ending in Escape during this step (also an Escape that waited in
+            # the key buffer and is dispatched by a later key or by the flush), judged right after its handler
+            if not exc:
+                for pre, post, hname in a["escape_calls"]:
+                    for cl, tag in drv.oracle_escape(pre, post):
+                        fam = "escape-as-argument" if pre["kbuf"] > 0 else "escape-direct"
+                        out.append(({"clause": tag, "family": fam}, cl + " (dispatched to %s)" % hname, j))
+                if tok == "<escape>" and not a["escape_calls"] and a["kbuf"] == 0:
+                    # Escape left the key buffer without any handler being called for it (dropped)
+                    for cl, tag in drv.oracle_escape(b, a):
+                        out.append(({"clause": tag, "family": "escape-not-dispatched"}, cl + " (Escape was dropped, no handler called)", j))
+        elif tok == "<escape>" and not exc:
             for cl, tag in drv.oracle_escape(b, a):
                 fam = "escape-as-argument" if b["kbuf"] > 0 else "escape-direct"
                 out.append(({"clause": tag, "family": fam}, cl + " (dispatched to %s)" % a.get("handler"), j))
@@ -301,17 +323,19 @@ def impl_bops(case):
             t1, c1 = b.text, b.cursor_position
         except Exception as e:  # noqa  - the buffer cannot even be read any more
             out.append([97, []])
-            trace.append((op, 97, t0, c0, "", 0, None, bool(b.read_only()), type(e).__name__))
+            trace.append((op, 97, t0, c0, "", 0, None, bool(b.read_only()), type(e).__name__, b.working_index, len(b._working_lines)))
             break
         out.append([code, st_after])
         sel = b.selection_state
         trace.append((op, code, t0, c0, t1, c1, None if sel is None else sel.original_cursor_position,
-                      bool(b.read_only())))
+                      bool(b.read_only()), None, b.working_index, len(b._working_lines)))
     return out, trace
 
 
-def oracle_bop(op, code, t0, c0, t1, c1, anchor, ro, unreadable=None):
-    """C05_buffer_inv / C05_buffer_errors_declared / exact Ok conditions, on the real Buffer."""
+def oracle_bop(op, code, t0, c0, t1, c1, anchor, ro, unreadable=None, wi=0, nlines=1):
+    """C05_buffer_inv / C05_buffer_windex_inv / C05_buffer_errors_declared / exact Ok conditions, on the real Buffer."""
+    if not (0 <= wi < nlines):
+        return "working index %d outside 0..%d" % (wi, nlines - 1)
     if code == 97:
         return "after the operation the buffer state cannot be read (%s)" % unreadable
     if not (0 <= c1 <= len(t1)):
@@ -364,7 +388,7 @@ def rand_bop(rng, tlen):
     if k == 12:
         return [12]
     if k == 13:
-        return [13, rng.randint(0, 5)]
+        return [13, rng.randint(-7, 6)]
     if k in (16, 17):
         return [k, cnt(), rng.randint(0, 1)]
     return [18, S(rt(4)), rng.randint(0, 1), rng.randint(0, 2), rng.choice([-1, 0, 1, 1, 2, 3])]
@@ -684,11 +708,13 @@ def main(tier):
         chk.sample({"handler_case": str(hcases[0])[:300], "handler": hnames[0], "result": str(hres[0])[:200]})
     chk.assumptions += [
         "proved: buffer layer (18 mutators), Vi cursor fix, Escape dispatch over the regenerated table for all atom valuations, 38 handler models; "
-        "everything else (the other ~290 handlers, multi-key dispatch with a non-empty key buffer, completion/search/undo state) is explored with the oracle, not proved",
+        "also proved: working index within range (all mutators), multiple-cursor range invariant of the five insert-multiple handlers, dispatch soundness for any key buffer, "
+        "Escape with 0, 1 or 2 pending keys over the regenerated table; everything else (the other ~290 handlers, Escape behind 3 or more pending keys, "
+        "entering insert-multiple mode, completion/search/undo state) is explored with the oracle, not proved",
         "Escape theorem hypotheses: vi_mode, not emacs_mode, buffer_has_focus, not in_quoted_insert, key buffer empty before Escape",
         "accept_search is modelled only in its effect on the Vi state (its early returns are unreachable under its is_searching filter)",
         "history search (enable_history_search), completion state and BLOCK clipboard data are outside the Buffer model",
-        "multiple-cursor range is checked by the oracle and by correspondence of the five insert-multiple handlers; no invariant theorem for it",
+        "multiple-cursor range: invariant theorem for the five insert-multiple handlers (C05_multicursor_inv); entering the mode and foreign edits while in it are oracle + correspondence only",
         "mouse events, CPR responses with malformed data, suspend, open-in-editor and system prompt keys are not key presses of the quantifier and are not fed",
         "a hang (e.g. recursive macro) is a liveness observation outside the property text: recorded as NOTE, not claimed",
     ]
